@@ -425,6 +425,9 @@ func runCheck(id, tier string, seed int) int {
 			continue
 		}
 		for _, e := range res.SpecErrors {
+			if strings.HasPrefix(e, "lit ") && !claimsLit(pu) {
+				continue // a vanished literal matters only to the check that claims that literal's postconditions
+			}
 			undecided = append(undecided, fmt.Sprintf("UNDECIDED: %s.%s: contract error: %s", res.Pkg, res.Key, e))
 			broken = true
 		}
@@ -769,4 +772,19 @@ func replayTmpName() string {
 		return "replaytmp@" + filepath.Base(r)
 	}
 	return "replaytmp"
+}
+
+// claimsLit: the unit claims postconditions of an escaping function literal ("$litK/..." claim pattern or a "lit:" group).
+func claimsLit(pu PropUnit) bool {
+	for _, c := range pu.Claim {
+		if strings.Contains(c, "$lit") {
+			return true
+		}
+	}
+	for _, g := range pu.Groups {
+		if strings.HasPrefix(g, "lit:") {
+			return true
+		}
+	}
+	return false
 }
